@@ -81,6 +81,8 @@ type RunSpec struct {
 type Case struct {
 	Pre  []Pre
 	Runs []RunSpec
+	// ListOrder: the order in which the agent lists its identities ("" = insertion order | reverse | bycomment)
+	ListOrder string `json:",omitempty"`
 }
 
 var nearMiss = []string{"", "private-key", "certificate", "Paranoids.Regular-cert", "PARANOIDS.REGULAR", "paranoids.regula", "paranoids-regular-cert", "paranoids regular", "aranoids.regular", "regular", "paranoids.Regular", "user_a@laptop", "é 日本"}
@@ -99,6 +101,7 @@ func gen(t *rapid.T) Case {
 			c.Pre[i].KID = ""
 		}
 	}
+	c.ListOrder = rapid.SampledFrom([]string{"", "", "", "reverse", "bycomment"}).Draw(t, "listOrder")
 	nr := rapid.IntRange(1, 6).Draw(t, "nruns")
 	for i := 0; i < nr; i++ {
 		l := fmt.Sprintf("run%d", i)
@@ -188,6 +191,10 @@ func exec(c Case) (vh.Outcome, error) {
 		return out, nil
 	}
 	defer p.Close()
+	p.ListOrder = c.ListOrder
+	if c.ListOrder != "" {
+		out.Classes = append(out.Classes, "list-order="+c.ListOrder)
+	}
 	dir, err := os.MkdirTemp("", "vkeys")
 	if err != nil {
 		return out, nil
@@ -468,7 +475,7 @@ func equal(a, b []string) bool {
 	return true
 }
 
-const rule = "histories against one recording keyring agent: 0..5 pre-existing identities (plain RSA / ECDSA / Ed25519 keys and foreign certificates whose comments are near-misses of the handler label: other case, truncation, '-' for '.', missing first letter, 'private-key', empty, non-ASCII; comments containing the exact handler name are not generated; two thirds of the foreign certificates carry a key identifier in the RA's own format - the regular handler's attribute combination for the same or another user, or hardware / firefighter / nonce / SSH-only ones -, as another deployment would issue), then 1..6 runs - of the real handler (a third of the later ones through the handler object and forwarded connection an earlier run built, class handler-object-reused), or (a quarter) of a harness handler whose one agent key (the repository's AgentKey) carries 2..3 signing requests, with the key-pair algorithm (default, RSA-2048, rarely RSA-4096, P-256 / 384 / 521, Ed25519) and the private-key label drawn - each succeeding or failing {agent refuses the challenge / handler rejects, no key slot configured, CA error - for several requests: on the last one, after the earlier ones were signed -, the agent refusing to remove an identity of the previous generation, the agent refusing one certificate insertion, a CA that answers 300 ms after the caller's context ended (late success, or a failure after which the agent is looked at 700 ms later)}, the CA returning 1..3 (one run in 30: 8 / 16 / 20) certificates (validity window as requested, or without expiry, or valid until 2^63 s, or stamped by a CA clock 90 s ahead, or the first certificate of a reply valid for 5 minutes only; a sixth of the replies also carry a plain public key - the CA's own key line - in front of, between or behind the certificates) with 0..n+1 comments (present / empty / containing the handler name), validity from {1, 2, 3599, 3600, 43200, 2^31, 315360000} or random in 1 s..10 y, the handler's 'key_label' option left out or set (the default, another text, the handler name, a text with a space). Oracle after a successful run: the new private key and every returned certificate are listed, signing with each certificate yields a signature verifying under its key, every AddedKey the agent received has 0 < lifetime and lifetime >= validity (the configured one, and - when the CA stamps exactly the requested window - the remaining validity of the certificate it carries), the run allocated no more than 64 MiB + 1 MiB per returned certificate, certificates of the earlier generation are absent, the certificate set is exactly foreign + this generation, every pre-existing identity is present with identical blob and comment; after a failing run the certificate set is unchanged. Non-trivial: >= 2 successful runs or a failure after a success, with >= 1 pre-existing identity."
+const rule = "histories against one recording keyring agent (which lists its identities in insertion order, newest first, or sorted by comment: the protocol promises no order): 0..5 pre-existing identities (plain RSA / ECDSA / Ed25519 keys and foreign certificates whose comments are near-misses of the handler label: other case, truncation, '-' for '.', missing first letter, 'private-key', empty, non-ASCII; comments containing the exact handler name are not generated; two thirds of the foreign certificates carry a key identifier in the RA's own format - the regular handler's attribute combination for the same or another user, or hardware / firefighter / nonce / SSH-only ones -, as another deployment would issue), then 1..6 runs - of the real handler (a third of the later ones through the handler object and forwarded connection an earlier run built, class handler-object-reused), or (a quarter) of a harness handler whose one agent key (the repository's AgentKey) carries 2..3 signing requests, with the key-pair algorithm (default, RSA-2048, rarely RSA-4096, P-256 / 384 / 521, Ed25519) and the private-key label drawn - each succeeding or failing {agent refuses the challenge / handler rejects, no key slot configured, CA error - for several requests: on the last one, after the earlier ones were signed -, the agent refusing to remove an identity of the previous generation, the agent refusing one certificate insertion, a CA that answers 300 ms after the caller's context ended (late success, or a failure after which the agent is looked at 700 ms later)}, the CA returning 1..3 (one run in 30: 8 / 16 / 20) certificates (validity window as requested, or without expiry, or valid until 2^63 s, or stamped by a CA clock 90 s ahead, or the first certificate of a reply valid for 5 minutes only; a sixth of the replies also carry a plain public key - the CA's own key line - in front of, between or behind the certificates) with 0..n+1 comments (present / empty / containing the handler name), validity from {1, 2, 3599, 3600, 43200, 2^31, 315360000} or random in 1 s..10 y, the handler's 'key_label' option left out or set (the default, another text, the handler name, a text with a space). Oracle after a successful run: the new private key and every returned certificate are listed, signing with each certificate yields a signature verifying under its key, every AddedKey the agent received has 0 < lifetime and lifetime >= validity (the configured one, and - when the CA stamps exactly the requested window - the remaining validity of the certificate it carries), the run allocated no more than 64 MiB + 1 MiB per returned certificate, certificates of the earlier generation are absent, the certificate set is exactly foreign + this generation, every pre-existing identity is present with identical blob and comment; after a failing run the certificate set is unchanged. Non-trivial: >= 2 successful runs or a failure after a success, with >= 1 pre-existing identity."
 
 func TestC03Provision(t *testing.T) {
 	vh.Run(t, vh.Spec[Case]{Property: "C03", Name: "TestC03Provision", Rule: rule, Gen: gen, Exec: exec})
